@@ -51,25 +51,34 @@ def run(ctx, rep):
             elif cls == model.ATOMIC_RMW_ADD:
                 n_inc += 1
                 rep.ok("R-ORD-INC", ik, "increment is %s (any ordering is sound: a new handle derives from a live one)" % ordr, cfg=tag)
-        # R-ORD-2/3/6 on every body with a direct decrement
-        for b in F.body_list:
-            gates = balance.dec_gate(F, b)
-            if not gates:
-                continue
-            B = cfg.Body(b)
-            for bi, t, found, _B in gates:
-                key = b["key"]
-                dec_ord = atomics.ordering_of(B, t["args"][2]) if len(t["args"]) >= 3 else None
+        # R-ORD-2/3/6 on every release unit (the body with the direct decrement, private helpers inlined, or the caller it
+        # reports its verdict to)
+        for b0, unit, paths in balance.release_units(F, E):
+            UB = cfg.Body(unit)
+            key = b0["key"]
+            for d in balance.gate_sides(F, unit, paths):
+                t = d["term"]
+                dec_ord = atomics.ordering_of(UB, t["args"][2]) if len(t["args"]) >= 3 else None
                 # R-ORD-3
-                ok3, why3 = _dec_gate_ok(F, A, b, B, t, found)
-                if ok3:
+                why3 = None
+                if not any(balance.path_frees(p) for p in paths):
+                    why3 = "the body that decrements the count word never reaches a free"
+                elif d["problem"] == "no-test":
+                    why3 = "no branch tests the value returned by the decrement itself against a constant (a separately loaded count would race with other releasers)"
+                elif d["problem"] == "not-eq-1":
+                    why3 = "the decrement's old value is tested with `%s %s`, not `== 1`: two threads could both, or neither, destroy the value" % (d["op"], d["k"])
+                elif any(balance.path_frees(p) for p in d["paths_other"]):
+                    why3 = "a free is reachable on the branch where the decrement observed a value other than 1"
+                elif not any(balance.path_frees(p) for p in d["paths_one"]):
+                    why3 = "the branch where the decrement observed 1 does not reach the free"
+                if why3 is None:
                     rep.ok("R-ORD-3", key + "/gate", cfg=tag)
                 else:
-                    rep.bad("R-ORD-3", key + "/gate", why3, F.loc(b, t["span"]), tag)
+                    rep.bad("R-ORD-3", key + "/gate", why3, F.loc(unit, t["span"]), tag)
                 # R-ORD-2: on every path DEC .. FREE there is an acquire operation on the count word after the DEC
                 bad = None
                 nfree = 0
-                for p in A.paths[key]:
+                for p in paths:
                     ev = p.events
                     i_dec = next((i for i, e in enumerate(ev) if e["kind"] == "DEC"), None)
                     if i_dec is None:
@@ -81,22 +90,22 @@ def run(ctx, rep):
                     acq = dec_ord in ("AcqRel", "SeqCst")
                     for e in ev[i_dec + 1 : i_free]:
                         if e["kind"] in ("LOAD", "FENCE"):
-                            tt = b["blocks"][e["bb"]]["term"]
+                            tt = unit["blocks"][e["bb"]]["term"]
                             cls2 = atomics.atomic_class(tt)
-                            if cls2 == model.ATOMIC_LOAD and atomics.receiver_is_count(F, B, tt) and atomics.ordering_of(B, tt["args"][1]) in atomics.ACQUIRE_OK:
+                            if cls2 == model.ATOMIC_LOAD and atomics.receiver_is_count(F, UB, tt) and atomics.ordering_of(UB, tt["args"][1]) in atomics.ACQUIRE_OK:
                                 acq = True
-                            if cls2 == model.FENCE and atomics.ordering_of(B, tt["args"][0]) in atomics.ACQUIRE_OK:
+                            if cls2 == model.FENCE and atomics.ordering_of(UB, tt["args"][0]) in atomics.ACQUIRE_OK:
                                 acq = True
                     if not acq and bad is None:
                         bad = p
                     # R-ORD-6: nothing touches the count word or the payload after the free
                     for e in ev[i_free + 1 :]:
                         if e["kind"] in ("LOAD", "INC", "DEC", "DATAREF") or (e["kind"] == "CALL" and e["vec"] != ZERO):
-                            rep.bad("R-ORD-6", key + "/after-free", balance.path_report(F, b, p, "the count word or the payload is touched after the block has been freed"), F.loc(b, e["span"]), tag)
+                            rep.bad("R-ORD-6", key + "/after-free", balance.path_report(F, unit, p, "the count word or the payload is touched after the block has been freed"), F.loc(unit, e["span"]), tag)
                 if nfree == 0:
-                    rep.bad("R-ORD-2", key + "/acquire", "no path from the decrement reaches a free (anchor lost)", F.loc(b), tag)
+                    rep.bad("R-ORD-2", key + "/acquire", "no path from the decrement reaches a free (anchor lost)", F.loc(unit), tag)
                 elif bad is not None:
-                    rep.bad("R-ORD-2", key + "/acquire", balance.path_report(F, b, bad, "between the decrement that observed 1 and the free there is no acquire operation on the count word (Acquire/SeqCst load, acquire fence, or an AcqRel/SeqCst decrement): the destruction is not ordered after other threads' last accesses"), F.loc(b, t["span"]), tag)
+                    rep.bad("R-ORD-2", key + "/acquire", balance.path_report(F, unit, bad, "between the decrement that observed 1 and the free there is no acquire operation on the count word (Acquire/SeqCst load, acquire fence, or an AcqRel/SeqCst decrement): the destruction is not ordered after other threads' last accesses"), F.loc(unit, t["span"]), tag)
                 else:
                     rep.ok("R-ORD-2", key + "/acquire", cfg=tag)
                     rep.ok("R-ORD-6", key + "/after-free", cfg=tag)
@@ -163,7 +172,7 @@ def run(ctx, rep):
     rep.floor("R-ORD-INC", 1, "one increment")
     rep.floor("R-ORD-2", 1, "one decrement-to-free region")
     rep.floor("R-ORD-3", 1, "one `old == 1` gate")
-    rep.floor("R-ORD-4", 4, "3 count initialisations + the shared-borrow positive control")
+    rep.floor("R-ORD-4", 2, "at least one count initialisation + the shared-borrow positive control (today 3 + 1)")
     rep.floor("R-FUNNEL", 12, "2 RMW sites + 6 clone entry points + 4 Drop impls")
 
 
